@@ -284,9 +284,12 @@ class AsyncTLSStreamTransport(AsyncStreamTransport):
                     feed_count = self.__incoming_reader.feed_count
 
                     # Flush any pending writes first
-                    async with self.__transport_send_lock:
-                        if self._write_bio.pending:
-                            await self._transport.send_all(self._write_bio.read())
+                    # (The send lock is only needed if there is something to flush: a reader must not queue
+                    # behind a send_all() blocked by the peer when it has nothing to send.)
+                    if self._write_bio.pending:
+                        async with self.__transport_send_lock:
+                            if self._write_bio.pending:
+                                await self._transport.send_all(self._write_bio.read())
 
                     async with self.__transport_recv_lock:
                         # Another task may have fed the SSL object while this one was waiting for the locks:
@@ -306,9 +309,11 @@ class AsyncTLSStreamTransport(AsyncStreamTransport):
                 raise
             else:
                 # Flush any pending writes first
-                async with self.__transport_send_lock:
-                    if self._write_bio.pending:
-                        await self._transport.send_all(self._write_bio.read())
+                # (No checkpoint if there is nothing to flush: the result must not be lost by a cancellation.)
+                if self._write_bio.pending:
+                    async with self.__transport_send_lock:
+                        if self._write_bio.pending:
+                            await self._transport.send_all(self._write_bio.read())
 
                 return result
 
